@@ -35,9 +35,38 @@ def history(rng, maxops, allow_big):
     return "drbg " + " ".join(toks)
 
 
+def boundary_state(rng):
+    """V / C with runs of 0xFF ending at every byte position (all carry-chain lengths), near-wrap values, extreme counters"""
+    def pat():
+        k = rng.below(6)
+        b = bytearray(rng.bytes(55))
+        if k == 0:
+            return bytes([0xFF] * 55)
+        if k == 1:
+            return bytes(55)
+        if k == 2:      # low j bytes all ones
+            j = 1 + rng.below(55)
+            b[55 - j:] = bytes([0xFF] * j)
+        elif k == 3:    # a run of ones ending at a random position, low part near the wrap
+            j = 1 + rng.below(54)
+            i = rng.below(j)
+            b[i:j] = bytes([0xFF] * (j - i))
+            b[54] = 0xFF - rng.below(3)
+        elif k == 4:    # low 32 bits just below 2^32 (block-counter wrap inside one request)
+            b[51:55] = (0xFFFFFFFF - rng.below(2100)).to_bytes(4, "big")
+        return bytes(b)
+    ctr = rng.choice([1, 2, 255, 256, 65535, 65536, 32767, 32768, 2 ** 31 - 300, rng.below(2 ** 31 - 300)])
+    return "S:%s:%s:%d" % (pat().hex(), pat().hex(), ctr)
+
+
 def gen_lines(rng, w, cap, tier):
     n = 150 if tier == "quick" else 3000
     out = []
+    for i in range(n):
+        toks = [boundary_state(rng)]
+        for _ in range(1 + rng.below(4)):
+            toks.append("g:%d" % rng.choice([0, 1, 32, 33, 64, 65, 100, 4928, 8192] + ([65536] if i % 8 == 0 else [])))
+        out.append("drbg " + " ".join(toks))
     for i in range(n):
         out.append(history(rng, 40, allow_big=(i % 10 == 0)))
     # long histories without reseed (the counter addition)
